@@ -449,6 +449,38 @@ Proof.
   unfold group_of. apply elem_of_list_filter. done.
 Qed.
 
+(* every CREATE of a maintenance round is a restore (restart from existing data) or a join of a
+   member that is waiting to start; never a bootstrap (join = restore = false) *)
+Lemma sched_create_kinds b q :
+  ctx_wf C → allowed P C (OBatch b) = true → q ∈ b → is_create q = true →
+  (q_restore q = true ∧ q_join q = false) ∨
+  (q_restore q = false ∧ q_join q = true ∧
+   ∃ c n, c_view C !! q_shard q = Some c ∧ s_reps c !! q_inst q = Some n ∧
+          replica_waiting P n (c_tick C) = true ∧ q_raft q = r_addr n).
+Proof.
+  intros Hwf Hal Hq Hcr.
+  assert (is_kill q = false) as Hk by (unfold is_create in Hcr; unfold is_kill; by destruct (q_type q)).
+  destruct (batch_group P C b q Hal Hq Hk) as (pre & c & Hb & Hc & Hid & Hin & Hg).
+  apply group_allowed_inv in Hg as [(Hh & sd & Hsd & Hok)|(Hh & Hcases)].
+  { left. destruct (restore_group_inv P C c _ _ q Hok Hin) as [Hs _].
+    apply create_shape_kind in Hs as (_ & ? & ?). done. }
+  destruct Hcases as [[_ Hnil]|[(_ & q0 & Hq0 & Hd)|[(sd & _ & q0 & Hq0 & Hj)|(_ & q0 & Hq0 & Ha)]]].
+  - exfalso. rewrite Hnil in Hin. by apply elem_of_nil in Hin.
+  - exfalso. rewrite Hq0 in Hin. apply elem_of_list_singleton in Hin. subst q0.
+    apply bool_decide_eq_true in Hd. destruct Hd as (Hd & _).
+    unfold is_delete in Hd. unfold is_create in Hcr. by destruct (q_type q).
+  - right. rewrite Hq0 in Hin. apply elem_of_list_singleton in Hin. subst q0.
+    apply bool_decide_eq_true in Hj. destruct Hj as (Hs & Hex).
+    apply create_shape_kind in Hs as (_ & Hj & Hr). split; [done|]. split; [done|].
+    apply Exists_exists in Hex as (n & Hn & Hinst & Hraft).
+    apply elem_sr_wait in Hn as [Hmem Hw].
+    destruct (wf_entry C c Hwf Hc) as [Hview _]. destruct (wf_member C c n Hwf Hc Hmem) as [Hlook _].
+    exists c, n. rewrite <- Hid, Hinst. done.
+  - exfalso. rewrite Hq0 in Hin. apply elem_of_list_singleton in Hin. subst q0.
+    apply bool_decide_eq_true in Ha. destruct Ha as (Ha & _).
+    unfold is_add in Ha. unfold is_create in Hcr. by destruct (q_type q).
+Qed.
+
 (* the quorum rule of restoreUnavailableShards *)
 Lemma sched_restore_quorum_partial b q c :
   ctx_wf C → allowed P C (OBatch b) = true → q ∈ b → is_restore q = true →
